@@ -10,7 +10,11 @@
 //   - for every case of the type switch in Sqlparse.Tables(): the ordered list of
 //     read / write / admin actions and the struct fields they are applied to;
 //   - the type → StatementKind map of Sqlparse.StatementKind();
-//   - writePermissionForKind (both copies) and isSchemaAlteringKind.
+//   - writePermissionForKind (both copies) and isSchemaAlteringKind;
+//   - the shape of the generic traversal ast.Walk (visit.go): the function that really recurses, how
+//     many parameters it carries besides (node, fn), every condition under which it returns before
+//     descending that is not the nil test or the callback's own answer, and whether it recurses into
+//     every element of node.Children() unconditionally (a depth / node budget shows up here).
 //
 // stdlib go/ast only.  Fails closed: any syntax in an extracted region that is not one of the
 // recognised shapes is an error (exit 1), never a skip.
@@ -21,6 +25,7 @@ import (
 	"fmt"
 	"go/ast"
 	"go/parser"
+	"go/printer"
 	"go/token"
 	"os"
 	"path/filepath"
@@ -63,6 +68,17 @@ type output struct {
 	SchemaAltering  []string          `json:"schemaAltering"`
 	AdminSkipsEmpty bool              `json:"adminSkipsEmpty"`
 	WriteSkipsEmpty bool              `json:"writeSkipsEmpty"`
+	Walk            walkFacts         `json:"walk"`
+}
+
+// walkFacts: what ast.Walk does besides "call fn, then recurse into every child".
+type walkFacts struct {
+	Recursor    string   `json:"recursor"`    // the function that recurses (Walk itself, or the helper it hands over to)
+	ExtraParams int      `json:"extraParams"` // parameters of the recursor besides (node, fn)
+	NilGuard    bool     `json:"nilGuard"`    // returns on node == nil || isNil(node)
+	PruneGuard  bool     `json:"pruneGuard"`  // returns when fn(node) is false
+	OtherGuards []string `json:"otherGuards"` // any other condition under which it returns without descending
+	AllChildren bool     `json:"allChildren"` // for _, c := range node.Children() { recursor(c, fn, …) } with nothing else in the loop
 }
 
 func die(format string, a ...any) {
@@ -454,6 +470,192 @@ func childrenVisited(ty string, fd *ast.FuncDecl, fields map[string]field) []str
 	}
 
 	return visited
+}
+
+func render(n ast.Node) string {
+	var b strings.Builder
+
+	if err := printer.Fprint(&b, fset, n); err != nil {
+		die("%s: cannot print: %v", pos(n), err)
+	}
+
+	return strings.Join(strings.Fields(b.String()), " ")
+}
+
+// disjuncts splits a || b || c.
+func disjuncts(e ast.Expr) []ast.Expr {
+	if p, ok := e.(*ast.ParenExpr); ok {
+		return disjuncts(p.X)
+	}
+
+	if b, ok := e.(*ast.BinaryExpr); ok && b.Op == token.LOR {
+		return append(disjuncts(b.X), disjuncts(b.Y)...)
+	}
+
+	return []ast.Expr{e}
+}
+
+func isCallOn(e ast.Expr, fn, arg string) bool {
+	c, ok := e.(*ast.CallExpr)
+
+	return ok && len(c.Args) == 1 && isIdent(c.Fun, fn) && isIdent(c.Args[0], arg)
+}
+
+// walkShape reads ast.Walk.  Recognised: an optional hand-over `helper(node, fn, …)` as the whole body of
+// Walk; in the recursor a sequence of `if COND { return }` followed by exactly one
+// `for _, c := range node.Children() { recursor(c, fn, …) }`.  Everything else is an error.
+func walkShape(files []*ast.File) walkFacts {
+	funcs := map[string]*ast.FuncDecl{}
+
+	for _, f := range files {
+		for _, d := range f.Decls {
+			if fd, ok := d.(*ast.FuncDecl); ok && fd.Recv == nil {
+				funcs[fd.Name.Name] = fd
+			}
+		}
+	}
+
+	fd := funcs["Walk"]
+	if fd == nil || fd.Body == nil {
+		die("ast.Walk not found")
+	}
+
+	params := func(fd *ast.FuncDecl) []string {
+		var out []string
+
+		for _, p := range fd.Type.Params.List {
+			if len(p.Names) == 0 {
+				die("%s: unnamed parameter of %s", pos(fd), fd.Name.Name)
+			}
+
+			for _, n := range p.Names {
+				out = append(out, n.Name)
+			}
+		}
+
+		return out
+	}
+
+	ps := params(fd)
+	if len(ps) != 2 {
+		die("%s: ast.Walk does not take (node, fn)", pos(fd))
+	}
+
+	w := walkFacts{Recursor: "Walk", OtherGuards: []string{}}
+
+	// hand-over: the whole body is one call helper(node, fn, …)
+	if len(fd.Body.List) == 1 {
+		if es, ok := fd.Body.List[0].(*ast.ExprStmt); ok {
+			c, ok := es.X.(*ast.CallExpr)
+			if !ok {
+				die("%s: ast.Walk: statement not understood", pos(es))
+			}
+
+			id, ok := c.Fun.(*ast.Ident)
+			if !ok || funcs[id.Name] == nil || id.Name == "Walk" || len(c.Args) < 2 || !isIdent(c.Args[0], ps[0]) || !isIdent(c.Args[1], ps[1]) {
+				die("%s: ast.Walk hands over to something this translator does not understand", pos(es))
+			}
+
+			fd = funcs[id.Name]
+			ps = params(fd)
+			w.Recursor = id.Name
+
+			if len(ps) != len(c.Args) || fd.Body == nil {
+				die("%s: %s: parameter list not understood", pos(fd), id.Name)
+			}
+		}
+	}
+
+	w.ExtraParams = len(ps) - 2
+	node, fn := ps[0], ps[1]
+
+	if fd.Type.Results != nil && len(fd.Type.Results.List) > 0 {
+		die("%s: %s returns a value", pos(fd), fd.Name.Name)
+	}
+
+	loops := 0
+
+	for _, st := range fd.Body.List {
+		switch x := st.(type) {
+		case *ast.IfStmt:
+			if loops > 0 {
+				die("%s: %s: statement after the loop over the children", pos(st), fd.Name.Name)
+			}
+
+			if x.Init != nil || x.Else != nil || len(x.Body.List) != 1 {
+				die("%s: %s: an if that is not `if COND { return }`", pos(st), fd.Name.Name)
+			}
+
+			if ret, ok := x.Body.List[0].(*ast.ReturnStmt); !ok || len(ret.Results) != 0 {
+				die("%s: %s: an if that is not `if COND { return }`", pos(st), fd.Name.Name)
+			}
+
+			for _, d := range disjuncts(x.Cond) {
+				switch {
+				case neq2(d, token.EQL, node, "nil"), isCallOn(d, "isNil", node):
+					w.NilGuard = true
+				case isNotCall(d, fn, node):
+					w.PruneGuard = true
+				default:
+					w.OtherGuards = append(w.OtherGuards, render(d))
+				}
+			}
+		case *ast.RangeStmt:
+			loops++
+
+			call, ok := x.X.(*ast.CallExpr)
+			if !ok || len(call.Args) != 0 {
+				die("%s: %s: range over something that is not node.Children()", pos(st), fd.Name.Name)
+			}
+
+			sel, ok := call.Fun.(*ast.SelectorExpr)
+			if !ok || !isIdent(sel.X, node) || sel.Sel.Name != "Children" {
+				die("%s: %s: range over something that is not node.Children()", pos(st), fd.Name.Name)
+			}
+
+			child, ok := x.Value.(*ast.Ident)
+			if !ok || (x.Key != nil && !isIdent(x.Key, "_")) {
+				die("%s: %s: range variables not understood", pos(st), fd.Name.Name)
+			}
+
+			w.AllChildren = false
+
+			if len(x.Body.List) == 1 {
+				if es, ok := x.Body.List[0].(*ast.ExprStmt); ok {
+					if c, ok := es.X.(*ast.CallExpr); ok && isIdent(c.Fun, w.Recursor) && len(c.Args) == len(ps) &&
+						isIdent(c.Args[0], child.Name) && isIdent(c.Args[1], fn) {
+						w.AllChildren = true
+					}
+				}
+			}
+
+			if !w.AllChildren {
+				w.OtherGuards = append(w.OtherGuards, "loop body: "+render(x.Body))
+			}
+		default:
+			die("%s: %s: statement not understood: %s", pos(st), fd.Name.Name, render(st))
+		}
+	}
+
+	if loops != 1 {
+		die("%s: %s: %d loops over the children", pos(fd), fd.Name.Name, loops)
+	}
+
+	return w
+}
+
+// neq2: <id> <op> <lit identifier>
+func neq2(e ast.Expr, op token.Token, id, rhs string) bool {
+	b, ok := e.(*ast.BinaryExpr)
+
+	return ok && b.Op == op && isIdent(b.X, id) && isIdent(b.Y, rhs)
+}
+
+// isNotCall: !fn(arg)
+func isNotCall(e ast.Expr, fn, arg string) bool {
+	u, ok := e.(*ast.UnaryExpr)
+
+	return ok && u.Op == token.NOT && isCallOn(u.X, fn, arg)
 }
 
 func isSliceOfNode(e ast.Expr) bool {
@@ -1115,8 +1317,10 @@ func emitLean(o *output) string {
 	emitMap("writePermSql", o.WritePermSQL)
 	emitMap("writePermScripting", o.WritePermTx)
 	fmt.Fprintf(&b, "def schemaAltering : List String := %s\n", qlist(o.SchemaAltering))
-	fmt.Fprintf(&b, "def cfg : Cfg := { adminSkipsEmpty := %v, writeSkipsEmpty := %v }\n\nend EgoVerif.C15.Gen\n",
+	fmt.Fprintf(&b, "def cfg : Cfg := { adminSkipsEmpty := %v, writeSkipsEmpty := %v }\n",
 		o.AdminSkipsEmpty, o.WriteSkipsEmpty)
+	fmt.Fprintf(&b, "def walkFacts : WalkFacts := ⟨%s, %d, %v, %v, %s, %v⟩\n\nend EgoVerif.C15.Gen\n",
+		q(o.Walk.Recursor), o.Walk.ExtraParams, o.Walk.NilGuard, o.Walk.PruneGuard, qlist(o.Walk.OtherGuards), o.Walk.AllChildren)
 
 	return b.String()
 }
@@ -1174,6 +1378,7 @@ func main() {
 	sort.Strings(order)
 
 	o := &output{}
+	o.Walk = walkShape(files)
 	schema := map[string]*nodeSchema{}
 
 	for _, name := range order {
